@@ -126,7 +126,7 @@ cmd_check() {
   local pids=() i
   for ((i=0; i<shards; i++)); do
     mkdir -p "$work/run-$i"
-    ( cd "$work/run-$i" && VERIF_SHARD=$i exec timeout -k 10 "$lim" "$BIN" -test.run "$tests" -test.count=1 \
+    ( cd "$work/run-$i" && VERIF_SHARD=$i exec timeout -s QUIT -k 10 "$lim" "$BIN" -test.run "$tests" -test.count=1 \
         -test.timeout="$((lim+60))s" -test.v >"$work/log-$i.txt" 2>&1 ) &
     pids+=($!)
   done
@@ -219,6 +219,11 @@ PY
     exit 1
   fi
   if [ "$inconcl" = 1 ]; then
+    # keep the log (a timed-out shard was sent SIGQUIT: its goroutine dump tells what was blocked)
+    mkdir -p "$ROOT/replays/$id"
+    for ((i=0; i<shards; i++)); do
+      [ "$(cat "$work/rc-$i")" != 0 ] && { grep -v 'rapid\] draw' "$work/log-$i.txt" | tail -c 200000 > "$ROOT/replays/$id/inconclusive-$tier-seed$SEED-$(date +%Y%m%d-%H%M%S).log"; break; }
+    done
     echo "check.sh: $id $tier inconclusive (timeout or harness failure)"; tail -20 "$work"/log-*.txt
     exit 2
   fi
